@@ -1,5 +1,6 @@
 /-
-C12 for csv — `C12_csv`: the statement `C12_csv_statement` of Props/C12.lean with the hypotheses (A1)–(A6) added.
+C12 for csv — `C12_csv`: the statement `C12_csv_statement` of Props/C12.lean with the hypotheses (A1)–(A4), (A6) added
+((A5) was needed before fixes/C12-3.diff and is gone).
 
 `C12_csv_statement` as written is FALSE for the model (and, where noted, for the C++ code): each added
 hypothesis is forced by a counterexample evaluated on the model (`rows (.csv prm) conv (renderCsv σ T)` against
@@ -26,10 +27,14 @@ conversion of C11Witness, which satisfies every hypothesis of the statement).
 (A4) `hlead`: the cell conversion skips blanks in front of a lexeme (`SkipsBlanks gC`, as strtof / strtoll do),
      or no pad has blanks in front.  The contract of the statement says nothing about `gC (blanks ++ lexeme)`.
         " 5,6\n" = 20 35 2c 36 0a with convRun (stops at the blank) → index [1] values [6]; expected [0,1] / [5,6].
-(A5) `hempty`: started at the delimiter the cell conversion converts nothing (`NoneAtDelim gC σ.delim`), or the
-     table has no empty cell.  True of strtof for ',' — false for a blank delimiter, C++ included:
+(A5) was: `hempty`: started at the delimiter the cell conversion converts nothing (`NoneAtDelim gC σ.delim`), or the
+     table has no empty cell.  True of strtof for ',' — false for a blank delimiter, C++ included (finding C12-F3):
         "1\t\t3\n" = 31 09 09 33 0a, delimiter '\t', label_column = 0, a conversion that skips blanks like strtof
-        → the empty cell swallows the next one: index [0] values [3]; expected index [1] values [3].
+        → the empty cell swallowed the next one: index [0] values [3]; expected index [1] values [3].
+     Repaired by fixes/C12-3.diff (the blank-cell guard of ParseBlock stops at the delimiter: `Fixes.csvDelimGuard`,
+     read off the source as `Gen.Parse.fixCsvDelimGuard`); the parser itself recognises the empty cell, whatever the
+     conversion would do at a delimiter, and the theorem no longer needs the hypothesis.  The examples at the end
+     evaluate a TAB-separated table with empty cells with and without the repair.
 (A6) `hd0 : σ.delim ≠ 0`: the csv line format of C11 (`C11_block_is_concat_of_lines_csv`) is about NUL-free
      texts.  No counterexample ("5\0\06\n" evaluates as expected); a restriction of the proof, not of the model.
 Everything else is the statement verbatim: any table, pads, end-of-line strings, label / weight columns in or
@@ -62,7 +67,6 @@ theorem C12_csv (conv : Conv) (gR gI gQ : Bytes → Res Nat) (gC : Bytes → Res
     (hfit : ∀ r ∈ T, CsvRowFits prm r)                                            -- (A1)
     (hpw : ∀ z ∈ T.zip σ.pad, z.1.length ≤ z.2.length)                            -- (A3)
     (hlead : SkipsBlanks gC ∨ ∀ ps ∈ σ.pad, ∀ p ∈ ps, p.1 = [])                   -- (A4)
-    (hempty : NoneAtDelim gC σ.delim ∨ ∀ r ∈ T, ∀ c ∈ r, c ≠ none)                -- (A5)
     (hd0 : σ.delim ≠ 0)                                                           -- (A6)
     (rws : List Row) (hrws : T.mapM (expectCsvRow gC prm) = .ok rws) (hag : AgreeRows rws)
     (hnan : ∀ r ∈ rws, ∀ w, r.weight = some w → isNaNBits w = false) :           -- (A2)
@@ -82,7 +86,7 @@ theorem C12_csv (conv : Conv) (gR gI gQ : Bytes → Res Nat) (gC : Bytes → Res
   rw [mapM_ok_map] at hrows
   cases hrows
   rw [rows_csv, hdoc]
-  exact csv_table_rows hE.loc hC prm hd hdd hde hd0 T σ.eol σ.pad hel hpl heol hT hpad hpw hlead hempty hfit valss hv
+  exact csv_table_rows hE.loc hC prm hd hdd hde hd0 T σ.eol σ.pad hel hpl heol hT hpad hpw hlead hfit valss hv
     hag hnan (by rw [← hdoc]; exact hb)
 
 /-! ### non-vacuity -/
@@ -112,7 +116,7 @@ example :
       convRun_exact.real, convRun_exact.index, convRun_exact.qid⟩
     gCBlank_exact ⟨0, 2, 44, true⟩ _ _ (by decide) (by decide) (by decide) (by decide) (by decide)
     (by simp only [isEolStr]; decide) (by simp only [IsLexeme]; decide) (by simp only [blanksOnly]; decide) (by decide)
-    (by decide) (by decide) (Or.inl gCBlank_skips) (Or.inl (gCBlank_none 44 (by decide) (by decide))) (by decide)
+    (by decide) (by decide) (Or.inl gCBlank_skips) (by decide)
     _ (by decide) ⟨Or.inl (by decide), Or.inl (by decide), Or.inr (by decide), Or.inl (by decide)⟩ (by decide)
 
 /-- … and its conclusion, computed directly on the model -/
@@ -123,6 +127,42 @@ example :
                  [[some [49], none, some [50], some [51, 48]], [some [52], some [53], some [54], some [55]]])
       = .ok [{ label := some 1, weight := some 2, qid := none, field := none, index := [1], value := some [30] },
              { label := some 4, weight := some 6, qid := none, field := none, index := [0, 1], value := some [5, 7] }] := by
+  decide
+
+/-- "1\t\t3\t4\n5\t6\t\t7\n" with delimiter TAB (a white-space delimiter, no blanks around cells), label_column 0 and
+the blank-skipping conversion `cellBlank` (which, started at a TAB, would skip it and convert the next cell): the
+empty cells are absent but numbered — finding C12-F3 repaired.  Every hypothesis of `C12_csv` holds … -/
+example :
+    rows (.csv ⟨0, 4294967295, 9, true⟩) { C11Witness.convRun with cell := cellBlank }
+      (renderCsv { delim := 9, eol := [[10], [10]],
+                   pad := [[([], []), ([], []), ([], []), ([], [])], [([], []), ([], []), ([], []), ([], [])]] }
+                 [[some [49], none, some [51], some [52]], [some [53], some [54], none, some [55]]])
+      = .ok [{ label := some 1, weight := none, qid := none, field := none, index := [1, 2], value := some [3, 4] },
+             { label := some 5, weight := none, qid := none, field := none, index := [0, 2], value := some [6, 7] }] :=
+  C12_csv { C11Witness.convRun with cell := cellBlank } _ _ _ gCBlank
+    ⟨⟨convRun_exact.loc.real, convRun_exact.loc.index, convRun_exact.loc.qid, fun _ _ _ => rfl⟩,
+      convRun_exact.real, convRun_exact.index, convRun_exact.qid⟩
+    gCBlank_exact ⟨0, 4294967295, 9, true⟩ _ _ (by decide) (by decide) (by decide) (by decide) (by decide)
+    (by simp only [isEolStr]; decide) (by simp only [IsLexeme]; decide) (by simp only [blanksOnly]; decide) (by decide)
+    (by decide) (by decide) (Or.inl gCBlank_skips) (by decide)
+    _ (by decide) ⟨Or.inl (by decide), Or.inr (by decide), Or.inr (by decide), Or.inl (by decide)⟩ (by decide)
+
+/-- … and its conclusion, computed directly on the model (the bytes are 31 09 09 33 09 34 0a 35 09 36 09 09 37 0a) -/
+example :
+    rows (.csv ⟨0, 4294967295, 9, true⟩) { C11Witness.convRun with cell := cellBlank }
+      [49, 9, 9, 51, 9, 52, 10, 53, 9, 54, 9, 9, 55, 10]
+      = .ok [{ label := some 1, weight := none, qid := none, field := none, index := [1, 2], value := some [3, 4] },
+             { label := some 5, weight := none, qid := none, field := none, index := [0, 2], value := some [6, 7] }] := by
+  decide
+
+/-- the same document on the model of the source WITHOUT fixes/C12-3.diff (`csvDelimGuard := false`): each empty
+cell swallows the next one, the entries are numbered 0,1 instead of 1,2 and 0,2 — the defect C12-F3 as observed on
+the real parser -/
+example :
+    csvRows { Fixes.repaired with csvDelimGuard := false } { C11Witness.convRun with cell := cellBlank } ⟨0, 4294967295, 9, true⟩
+      [49, 9, 9, 51, 9, 52, 10, 53, 9, 54, 9, 9, 55, 10]
+      = .ok [{ label := some 1, weight := none, qid := none, field := none, index := [0, 1], value := some [3, 4] },
+             { label := some 5, weight := none, qid := none, field := none, index := [0, 1], value := some [6, 7] }] := by
   decide
 
 end DmlcModel.Props.C12
